@@ -872,3 +872,7 @@ M("C17-includer-dir-as-referenced", "C17", "src/cppparser/cppPreprocessor.cxx",
 M("C17-benign-includer-dir-local", "C17", "src/cppparser/cppPreprocessor.cxx",
   "    Filename match(get_file()._filename.get_dirname(), filename);", "    Filename match(Filename(get_file()._filename.get_dirname()), filename);",
   benign=True)
+
+M("C06-function-type-ignores-class-owner", "C06", "src/cppparser/cppFunctionType.cxx",
+  "  if (_class_owner != ot->_class_owner) {\n    // A pointer-to-member-function type also names the class.\n    if (_class_owner == nullptr || ot->_class_owner == nullptr ||\n        *_class_owner != *ot->_class_owner) {\n      return false;\n    }\n  }\n", "",
+  expect="R06.1|CPPFunctionType::is_equal|_class_owner")
